@@ -12,6 +12,7 @@ CONSTANTS
   MaxPush = 1
   Faults = {"sendErr", "recvErr", "peerClose"}
   RespShapes <- RS_sub1
+  Abandon = FALSE
   MaxArr = 1
   ArrMenu = {}
 INIT Init
